@@ -35,7 +35,9 @@ BadSplit(e) ==
   IF e.err THEN T(greedy <= MaxParts, "C06.err")
   ELSE
        T(e.actual # expActual, "C06.coding")
-  \cup T(greedy > MaxParts, "C07.toomany")
+  \* (accepted with at most 255 parts because characters were cut is the recorded consequence of C14.cut;
+  \*  more than 255 parts handed out is a different violation)
+  \cup T(greedy > MaxParts, IF Len(parts) <= MaxParts THEN "C07.toomany" ELSE "C07.toomany.overflow")
   \cup (IF fits
           THEN T(~(Len(parts) = 1 /\ parts[1] = (IF kind = "gsm7p" THEN Pack(u) ELSE u))
                    /\ (FullySpecified(kind) \/ Len(parts) # 1), "C06.single")
@@ -54,7 +56,13 @@ BadSplit(e) ==
                 ELSE
                      T(IF FullySpecified(kind) THEN ~PreservesOct(parts, u) ELSE e.dec # e.text, "C06.preserves")
                 \cup T(\E i \in 1..Len(parts) : Len(parts[i]) = 6 \/ Len(parts[i]) - 6 > PerOf(kind), "C07.partsize")
-                \cup T(\E i \in 1..Len(parts) : ~WholeChars(kind, Payload(parts, i)), "C14.cut"))
+                \cup T(\E i \in 1..Len(parts) : ~WholeChars(kind, Payload(parts, i)),
+                       \* "C14.cut": the fixed-width cut (every non-final payload is exactly the per-part size, UCS-2
+                       \* payloads are whole code units) lands inside a multi-unit character; anything else that cuts
+                       \* a character - another part size, half a UCS-2 code unit - is a different violation
+                       IF (\A i \in 1..(Len(parts) - 1) : Len(parts[i]) - 6 = PerOf(kind))
+                          /\ (kind = "ucs2" => \A i \in 1..Len(parts) : (Len(parts[i]) - 6) % 2 = 0)
+                         THEN "C14.cut" ELSE "C14.cut.unaligned"))
           \cup T(Len(parts) > greedy, "C07.minimal"))
 
 BadParse(e) ==
